@@ -109,6 +109,14 @@ def build(stream, p):
                 pass
         acc = gen.acc_array(rows, readonly_ok=False)
         lm = dsw.accessor_to_latter_map(acc)
+        # the ORDER of the keys of a latter map carries no meaning: a share of the histories (chosen by content) starts from the
+        # same map with its keys in reverse or rotated order
+        import zlib
+        hk = zlib.crc32(repr(rows).encode()) % 4
+        if hk in (1, 2) and len(lm) > 1:
+            keys = list(lm)
+            keys = keys[::-1] if hk == 1 else keys[len(keys) // 2:] + keys[:len(keys) // 2]
+            lm = {a: lm[a] for a in keys}
         if p.get("twins"):
             f0 = flags[0] if flags else 3
             direct = dsw.calculate_intersection_score(lm, observed_length=k, has_insertion=bool(f0 % 2), has_deletion=bool(f0 // 2))
@@ -119,7 +127,7 @@ def build(stream, p):
             lm_before = {int(a): [int(x) for x in b] for a, b in lm.items()}
             ins, dele = bool(f % 2), bool(f // 2)
             try:
-                acc2, lm2, arc, scores = dsw.remove_nasty_arc(accessor=acc, latter_map=lm, has_insertion=ins, has_deletion=dele)
+                acc2, lm2, arc, scores = gen.api("remove_nasty_arc", accessor=acc, latter_map=lm, has_insertion=ins, has_deletion=dele)
             except Exception as e:  # noqa
                 out += exn_answer(e)
                 return out
